@@ -233,6 +233,9 @@ impl Engine for C13 {
         };
         let mut prev_today: Option<(Date, bool)> = None;
         let mut fs_fault_seen_before = false;
+        // year -> (today, published_today) of the latest successful download of that year by a run
+        // whose cache write was not disturbed by an injected file-system error
+        let mut downloaded_on: BTreeMap<i32, (Date, bool)> = BTreeMap::new();
         for (ri, run) in sc.runs.iter().enumerate() {
             let today = pd(&run.today);
             let pt = run.published_today;
@@ -449,6 +452,44 @@ impl Engine for C13 {
                 }
             }
 
+            // ---- oracle 3b: coverage by history. A year downloaded by an earlier run on day T covers
+            // every date before T (its rate, or the fact that none was published, was final then),
+            // and T itself if T's rate was in that download. A later, unforced run must not download
+            // the year for dates that download covered - whatever the cache file looks like.
+            let read_fault_now = obs.proc.fs_faults_fired.contains_key("open_read_error") || obs.proc.fs_faults_fired.contains_key("read_error");
+            if !run.force && !read_fault_now {
+                let mut needed_by_history: BTreeSet<i32> = BTreeSet::new();
+                for (i, d) in lookups.iter().enumerate().take(attempted) {
+                    if !needs_lookup(i) {
+                        continue;
+                    }
+                    for x in ref_touched(&boc, today, pt, *d) {
+                        let covered = match downloaded_on.get(&x.year()) {
+                            Some((t, p)) => x < *t || (x == *t && boc.in_snapshot(x, *t, *p)),
+                            None => false,
+                        };
+                        if !covered {
+                            needed_by_history.insert(x.year());
+                        }
+                    }
+                }
+                for rq in &obs.requests {
+                    if rq.url_ok && !needed_by_history.contains(&rq.year) && downloaded_on.contains_key(&rq.year) {
+                        let (t, _) = downloaded_on[&rq.year];
+                        push(Violation { kind: "unneeded_download".into(), signature: "download although an earlier run's download of that year already covered every requested date".into(), detail: format!("run {} (today {}, not forced, {:?} cache): request for {} although an earlier run downloaded that year successfully on {} and every date the look-ups {:?} need in it lies before that day\n  cached year {} held dates up to {:?} at the start of this run", ri, today, sc.cache, rq.year, t, run.lookups, rq.year, persisted.get(&rq.year).and_then(|s| s.iter().next_back().map(|d| d.to_string()))) }, &mut violations);
+                    }
+                }
+            }
+            // remember successful downloads whose cache write was not disturbed
+            let write_fault_now = obs.proc.fs_faults_fired.keys().any(|k| !k.contains("read"));
+            if !write_fault_now && !run.fs_faults.enospc_after_bytes.is_some() {
+                for rq in &obs.requests {
+                    if rq.ok {
+                        downloaded_on.insert(rq.year, (today, pt));
+                    }
+                }
+            }
+
             // ---- oracle 2 and 3: download counters
             let mut ok_by_year: BTreeMap<i32, u32> = BTreeMap::new();
             for rq in &obs.requests {
@@ -602,7 +643,7 @@ impl Engine for C13 {
         "exploration"
     }
     fn rule(&self) -> String {
-        "Seeded histories: a publication calendar (as for C12), then 1-8 runs; run r is a fresh simulated process on today_r = today_{r-1} + gap (gap weighted over 0,1,2,3,4-10,11-40,~365 days), with a published-today flag (monotone within a day), force flag (p=0.15), direct or application path (p=1/3; rows spread over 1-3 CSV files sharing one loader, row variants: USD without rate, USD with explicit rate, CAD trade with USD commission, USD trade + USD commission), and 1-8 look-up dates drawn relative to today (-9..+2), to the predicted frontier of each cached year (-3..+9), to year ends, to earlier look-ups, in ascending/descending/generated order; cache = real CsvRatesCache over SimFs (2/3) or real InMemoryRatesCache carried across processes (1/3); legal short reads/writes as a knob. Two of three histories are fault-free; every third (index % 3 == 2) injects network faults (error, HTML body, truncated JSON, empty body; p=1/4 per request) and, in a quarter of its runs, one file-system fault kind (EACCES on open-for-write/mkdir/open-for-read, ENOSPC after N bytes, EIO on rename/fsync/read). Oracle: each look-up equals the same look-up by the real code with no cache (fresh process, empty cache, forced) on the same snapshot; an Err is tolerated only for a look-up during which an injected network fault fired; successful downloads per (run, year) <= 1; when not forced, no request for a year whose needed dates (reference-model touched set) were all in the persisted cache at the start of the run. evaluations = histories; distinct_nontrivial = distinct histories in which some run started from a non-empty persisted cache.".to_string()
+        "Seeded histories: a publication calendar (as for C12), then 1-8 runs; run r is a fresh simulated process on today_r = today_{r-1} + gap (gap weighted over 0,1,2,3,4-10,11-40,~365 days), with a published-today flag (monotone within a day), force flag (p=0.15), direct or application path (p=1/3; rows spread over 1-3 CSV files sharing one loader, row variants: USD without rate, USD with explicit rate, CAD trade with USD commission, USD trade + USD commission), and 1-8 look-up dates drawn relative to today (-9..+2), to the predicted frontier of each cached year (-3..+9), to year ends, to earlier look-ups, in ascending/descending/generated order; cache = real CsvRatesCache over SimFs (2/3) or real InMemoryRatesCache carried across processes (1/3); legal short reads/writes as a knob. Two of three histories are fault-free; every third (index % 3 == 2) injects network faults (error, HTML body, truncated JSON, empty body; p=1/4 per request) and, in a quarter of its runs, one file-system fault kind (EACCES on open-for-write/mkdir/open-for-read, ENOSPC after N bytes, EIO on rename/fsync/read). Oracle: each look-up equals the same look-up by the real code with no cache (fresh process, empty cache, forced) on the same snapshot; an Err is tolerated only for a look-up during which an injected network fault fired; successful downloads per (run, year) <= 1; when not forced, no request for a year whose needed dates (reference-model touched set) were all in the persisted cache at the start of the run, nor for a year that an earlier run downloaded successfully (cache write undisturbed) on a day after all the needed dates. evaluations = histories; distinct_nontrivial = distinct histories in which some run started from a non-empty persisted cache.".to_string()
     }
     fn state_measure(&self) -> String {
         "distinct (look-up date minus cached-year frontier bucket, date minus today bucket, published flag, force, year-loaded-from-cache-earlier-in-run, outcome class) tuples over direct look-ups".to_string()
@@ -611,7 +652,8 @@ impl Engine for C13 {
         vec![
             "the server snapshot of a run holds every rate published for dates before that run's today, today's iff published_today; published values never change (proviso of C13)".to_string(),
             "the no-cache reference is the real code itself (fresh process, empty in-memory cache, force_download), so the check stays sound for any repair of the look-up rules (those are C12's business)".to_string(),
-            "'the cached year covers the requested date' is evaluated on the dates the reference model says the look-up needs (the date itself down to the date whose rate is used, or 7 days back), against the cache as persisted at the start of the run, read by the harness itself".to_string(),
+            "a year downloaded by an earlier run on day T (cache write undisturbed) covers every date before T, and T itself if its rate was in that download: the cache a run leaves behind must spare later runs the download for those dates (zero placeholders exist for that purpose)".to_string(),
+            "'the cached year covers the requested date' is also evaluated on file content: the dates the reference model says the look-up needs (the date itself down to the date whose rate is used, or 7 days back), against the cache as persisted at the start of the run, read by the harness itself".to_string(),
             "concurrent acb processes sharing one cache directory are outside C13 (a sequence of runs) and are not simulated".to_string(),
         ]
     }
